@@ -8,7 +8,9 @@ RULE = ("MC: TLC proves on 1-2 flows, every rule set over their packets, a 3-val
         "stale) lets a tracked flow pass only if the current rules allow its original direction, forgets it otherwise, and that a "
         "reload with unchanged rules cuts nothing. R: one replayed step per edge on a real Interface.reloadFirewall / "
         "Firewall.Drop with real YAML (model wrap mapped to the real 16-bit wrap); at every unchanged-rules reload edge the code is "
-        "compared with itself just before / just after. T: random histories with reloads validated by TLC against the reference. "
+        "compared with itself just before / just after. T: random histories with reloads (incl. the reload that wraps the 16-bit "
+        "counter and a full turn of it: 65536 changed reloads, of which the wrapping and the last one are real and the others "
+        "move the counter only, every flow tried at once afterwards) validated by TLC against the reference. "
         "Reload alphabet: rule sets; configurations [default_local_cidr_any, rule text, certificate with / without the node's unsafe "
         "network] with flows towards an own and an unsafe-network address")
 ASSUMPTIONS = [
@@ -52,7 +54,7 @@ def run(ctx):
     if not ctx.violations:      # a violation ends its history early; vacuity only matters for a pass
         ctx.require_actions('Pkt', 'Reload', 'ReloadCfg', 'R:tour', 'R:twin', 'R:twin-option-flip', 'R:map:distinct', 'R:map:proto-only', 'R:map:unsafe-local',
                             'T:Reload-option-flip', 'T:Pkt', 'T:Reload', 'T:Reload-same',
-                            'T:Reload-noop', 'T:Reload-wrap', 'T:pass', 'T:drop',
+                            'T:Reload-noop', 'T:Reload-wrap', 'T:Reload-full-turn', 'T:pass', 'T:drop',
                             # reloads that change the node's own unsafe networks (certificate renewed without / with them)
                             'R:reload:cert-unsafe-networks-only', 'R:reload:cert-unsafe-networks+section',
                             'R:reload:default_local_cidr_any', 'R:reload:rules', 'T:Reload-cert-unsafe')
